@@ -449,3 +449,33 @@ Proof.
   pose proof (preopen_fails openable (s_redirs st) q AO) as PF.
   destruct (builtin_preopen openable (s_redirs st) q) as [sh1 okb]. cbn [snd] in PF. subst okb. cbn. auto.
 Qed.
+
+(* the probe of the lone-builtin branch (d4ac685) opens exactly the files a POSIX shell opens for the list, in order, each with
+   ITS OWN mode (`>` truncate, `>>` append), up to and including the first one that cannot be opened -- so every `>` target
+   before a failing one, and every `>` target of a builtin that prints nothing, is created / truncated *)
+Lemma preopen_opens : forall openable rs p,
+  ev_opens (tr (fst (builtin_preopen openable rs p))) = ev_opens (tr p) ++ fst (posix_opens openable rs) /\
+  snd (builtin_preopen openable rs p) = snd (posix_opens openable rs).
+Proof.
+  intros openable. induction rs as [|r rest IH]; intros p.
+  - cbn. rewrite app_nil_r. auto.
+  - cbn [builtin_preopen posix_opens].
+    assert (FILE : is_file_redir r = true ->
+      let res := (let path := target_path (r_to r) in
+                  if openable path then let '(p1, n) := p_open path (wmode (r_app r)) p in builtin_preopen openable rest (p_close n p1)
+                  else (p_openfail path (wmode (r_app r)) p, false)) in
+      let pos := (let path := target_path (r_to r) in
+                  if openable path then let '(l, ok) := posix_opens openable rest in ((path, wmode (r_app r)) :: l, ok)
+                  else ([(path, wmode (r_app r))], false)) in
+      ev_opens (tr (fst res)) = ev_opens (tr p) ++ fst pos /\ snd res = snd pos).
+    { intros _. cbv zeta. destruct (openable (target_path (r_to r))).
+      - destruct (p_open (target_path (r_to r)) (wmode (r_app r)) p) as [p1 n] eqn:EP.
+        assert (T1 : tr p1 = EOpen (target_path (r_to r)) (wmode (r_app r)) (Some n) :: tr p).
+        { unfold p_open, alloc in EP. injection EP as <- <-. reflexivity. }
+        destruct (IH (p_close n p1)) as (A & B).
+        destruct (posix_opens openable rest) as [l ok]. cbn [fst snd] in *. split; [|exact B].
+        rewrite A. unfold p_close. cbn [tr ev_opens]. rewrite T1. cbn [ev_opens]. rewrite <- app_assoc. reflexivity.
+      - unfold p_openfail. cbn [fst snd tr ev_opens]. auto. }
+    unfold is_file_redir in *.
+    destruct (r_fd r), (r_to r); try (apply FILE; reflexivity); apply IH.
+Qed.
